@@ -1030,7 +1030,7 @@ def run(ctx):
     # 4. generated -----------------------------------------------------------------------------------------
     # fixed number of cases (a run is then a function of the seed); the wall budget only guards a loaded machine
     budget = 600.0 if ctx.thorough else 80.0
-    max_cases = int(os.environ.get("C08_CASES", "3000" if ctx.thorough else "330"))
+    max_cases = int(os.environ.get("C08_CASES", "2000" if ctx.thorough else "330"))
     sample = 1.0
     profiles = {}
     t0 = time.time()
